@@ -287,11 +287,68 @@ def key_revocation(ctx):
     return out
 
 
+def revoke_loop(ctx):
+    """REVOKE ... ON t1, t2 FROM u stores a record for every named event type"""
+    b = Builder(ctx, "handlers-permissions-handle-{closure#0}.", "permissions::handle (REVOKE arm)", {})
+    E, q = b.E, ctx.q
+    r = b.mk("B-5", "permissions::handle, REVOKE: for every event type named in the command the reduced permission set is stored "
+                    "(AuthManager::grant_permission with that event type) before the loop moves on or the OK answer is written - "
+                    "also when the set is all-false, which is the explicit denial that overrides a role")
+    out = [b.results["B-5"]]
+    if not r:
+        return out
+    grants = [e for e in oblig.events(E, r"AuthManager::grant_permission$") if e.args and "RevokePermission" in " ".join(sym.describe(a) for a in e.args[:2])]
+    if not oblig.need_anchor(r, grants, "grant_permission in the REVOKE arm"):
+        return out
+    r.nontrivial = True
+    # the loop's own iterator: the `next` whose item is the event type handed to grant_permission
+    by_layer = {}
+    for g in grants:
+        m = re.match(r"(Iterator::next#\d+)", sym.describe(g.args[2])) if len(g.args) > 2 else None
+        if not m:
+            r.status = "inconclusive"
+            r.notes.append("the event type stored is not the loop's current item")
+            return out
+        by_layer[g.layer] = (g, m.group(1))
+    nexts = {}
+    for e in E.events:
+        if re.search(r"Iterator>::next$", e.func):
+            base = re.sub(r"@L\d+$", "", e.site)
+            if any(base == it for (_g, it) in by_layer.values()):
+                nexts[e.layer] = e
+    oks = [e for e in oblig.events(E, r"Response::ok_lines$") if e.span and any(abs(e.span[1] - g.span[1]) < 60 and e.span[1] > g.span[1] for g in grants if g.span)]
+    for L, (g, _it) in sorted(by_layer.items()):
+        n = nexts.get(L)
+        if n is None:
+            continue
+        took = z3.And(n.reach, z3.BitVec(f"disc({n.site})", 64) == 1)
+        goals = []
+        if L + 1 in nexts:
+            goals.append(("moves on to the next event type", nexts[L + 1].reach))
+        for o in oks:
+            goals.append(("answers OK", o.reach))
+        for what, goal in goals:
+            res, model = q.check(took, goal, z3.Not(g.reach), domain=E.domain)
+            r.queries += 1
+            if res == z3.sat:
+                oblig.violated(r, E, q, n, model, f"REVOKE {what} without having stored the reduced permissions of an event type "
+                                                   "(e.g. when nothing changes numerically: the explicit denial that overrides a role is never recorded)")
+                return out
+        # what is stored: read = existing.read && !revoke_read (same for write) - at least: a PermissionSet built here
+        ps = g.args[3] if len(g.args) > 3 else None
+        if not isinstance(ps, sym.Agg) or not ps.names or set(ps.names) != {"read", "write"}:
+            r.status = "inconclusive"
+            r.notes.append("the stored permission set is not a visible struct literal")
+            return out
+    return out
+
+
 def obligations(ctx):
     out = []
     out += summaries(ctx)
     out += permission_updates(ctx)
     out += key_revocation(ctx)
+    out += revoke_loop(ctx)
     for (oid, needle, label, perm, eff, opt) in HANDLERS:
         out += gate(ctx, oid, needle, label, perm, eff, opt)
     out += dispatcher(ctx)
